@@ -404,6 +404,8 @@ pub fn ringk(_args: &[String]) {
 pub struct Sink {
     pub script: Vec<i64>,
     pub got: Vec<u8>,
+    /// how many times this sink answered with an error
+    pub errs: usize,
 }
 impl std::io::Write for Sink {
     fn write(&mut self, b: &[u8]) -> std::io::Result<usize> {
@@ -413,7 +415,10 @@ impl std::io::Write for Sink {
         }
         let a = self.script.remove(0);
         match a {
-            -1 => Err(std::io::Error::new(std::io::ErrorKind::WouldBlock, "scripted")),
+            -1 => {
+                self.errs += 1;
+                Err(std::io::Error::new(std::io::ErrorKind::WouldBlock, "scripted"))
+            }
             -2 => {
                 self.got.extend_from_slice(b);
                 Ok(b.len())
@@ -571,7 +576,7 @@ pub fn decbufrand(args: &[String]) {
                             _ => rng.gen_range(1..20),
                         })
                         .collect();
-                    let mut sink = Sink { script: script.clone(), got: vec![] };
+                    let mut sink = Sink { script: script.clone(), got: vec![], errs: 0 };
                     let all = rng.gen_bool(0.5);
                     let r = if all { db.drain_to_writer(&mut sink) } else { db.drain_to_window_size_writer(&mut sink) };
                     if let Ok(n) = r {
